@@ -120,7 +120,8 @@ impl ConfirmHistory {
     pub(super) fn set_last_tick(&mut self, tick: RepliconTick) {
         debug_assert!(tick >= self.last_tick);
         let diff = tick - self.last_tick;
-        self.mask = self.mask.wrapping_shl(diff);
+        // `wrapping_shl` would shift by `diff % 64` and keep stale bits for gaps of 64 ticks or more.
+        self.mask = self.mask.checked_shl(diff).unwrap_or(0);
         self.last_tick = tick;
         self.mask |= 1;
     }
